@@ -1,0 +1,75 @@
+//go:build verif
+
+package gohlslib
+
+import (
+	"context"
+	"encoding/binary"
+)
+
+// VerifYieldHook, when set, is called at instrumented program points
+// (deterministic simulation only; never compiled in without the "verif" tag).
+var VerifYieldHook func(site string)
+
+func verifYield(site string) {
+	if h := VerifYieldHook; h != nil {
+		h(site)
+	}
+}
+
+// VerifMutexFree reports whether the muxer mutex can currently be acquired.
+func VerifMutexFree(m *Muxer) bool {
+	if !m.mutex.TryLock() {
+		return false
+	}
+	m.mutex.Unlock() //nolint:staticcheck
+	return true
+}
+
+// VerifSegmentQueue exposes the client segment queue to the simulator.
+type VerifSegmentQueue struct {
+	q clientSegmentQueue
+}
+
+// NewVerifSegmentQueue allocates a VerifSegmentQueue.
+func NewVerifSegmentQueue() *VerifSegmentQueue {
+	v := &VerifSegmentQueue{}
+	v.q.initialize()
+	return v
+}
+
+// Push pushes a segment identified by id.
+func (v *VerifSegmentQueue) Push(id uint64) {
+	p := make([]byte, 8)
+	binary.BigEndian.PutUint64(p, id)
+	v.q.push(&segmentData{payload: p})
+}
+
+// PushEnd pushes the end-of-stream sentinel.
+func (v *VerifSegmentQueue) PushEnd() {
+	v.q.push(nil)
+}
+
+// Pull pulls a segment.
+func (v *VerifSegmentQueue) Pull(ctx context.Context) (id uint64, end bool, ok bool) {
+	seg, ok := v.q.pull(ctx)
+	if !ok {
+		return 0, false, false
+	}
+	if seg == nil {
+		return 0, true, true
+	}
+	return binary.BigEndian.Uint64(seg.payload), false, true
+}
+
+// WaitUntilSizeIsBelow wraps waitUntilSizeIsBelow.
+func (v *VerifSegmentQueue) WaitUntilSizeIsBelow(ctx context.Context, n int) bool {
+	return v.q.waitUntilSizeIsBelow(ctx, n)
+}
+
+// Len returns the queue length.
+func (v *VerifSegmentQueue) Len() int {
+	v.q.mutex.Lock()
+	defer v.q.mutex.Unlock()
+	return len(v.q.queue)
+}
